@@ -377,30 +377,54 @@ def beginRun (s : State) : State :=
 /-- The resident command finished: `finalize()` disposes it, the request is done. -/
 def lifeDone (s : State) (r : Req) : State := markDone { s with resident := none } r
 
+/-- `StartEngineCommand._run` (no yield: the command ends in its first tick). -/
+def lifeStart (s : State) (r : Req) : State :=
+  if s.started then lifeDone s r else lifeDone (beginRun s) r
+
+/-- `StopEngineCommand._run` up to its `yield`: `_runstate_stopping`, `cancel_all_commands`. -/
+def lifeStop0 (s : State) (r : Req) : State :=
+  if s.sys != .running then lifeDone s r
+  else { cancelAll .stop s.executing { s with stopping := true } with resident := some ⟨.stop, 1⟩ }
+
+/-- …and after it. -/
+def lifeStop1 (s : State) (r : Req) : State := lifeDone (endRun s []) r
+
+/-- `RestartEngineCommand._run`, first part. -/
+def lifeRestart0 (s : State) (r : Req) : State :=
+  if s.sys != .running then lifeDone s r
+  else { cancelAll .restart s.executing { s with stopping := true, sys := .restarting }
+         with resident := some ⟨.restart, 1⟩ }
+
+/-- second part: the run ends; the new command manager inherits the Restart request. -/
+def lifeRestart1 (s : State) : State :=
+  { endRun s (match s.restartPending with | some p => [p] | none => []) with resident := some ⟨.restart, 2⟩ }
+
+/-- third part: the new run begins. -/
+def lifeRestart2 (s : State) (r : Req) : State := lifeDone (beginRun s) r
+
+/-- `command.tick()` of the resident lifecycle command. -/
 def tickLife (s : State) (r : Req) (l : Life) : State :=
   match l.name, l.phase with
-  | .start, _ =>
-    if s.started then lifeDone s r else lifeDone (beginRun s) r
-  | .stop, 0 =>
-    if s.sys != .running then lifeDone s r
-    else { cancelAll .stop s.executing { s with stopping := true } with resident := some ⟨.stop, 1⟩ }
-  | .stop, _ => lifeDone (endRun s []) r
-  | .restart, 0 =>
-    if s.sys != .running then lifeDone s r
-    else { cancelAll .restart s.executing { s with stopping := true, sys := .restarting }
-           with resident := some ⟨.restart, 1⟩ }
-  | .restart, 1 =>
-    { endRun s (match s.restartPending with | some p => [p] | none => []) with resident := some ⟨.restart, 2⟩ }
-  | .restart, _ => lifeDone (beginRun s) r
+  | .start, _ => lifeStart s r
+  | .stop, 0 => lifeStop0 s r
+  | .stop, _ => lifeStop1 s r
+  | .restart, 0 => lifeRestart0 s r
+  | .restart, 1 => lifeRestart1 s
+  | .restart, _ => lifeRestart2 s r
   | .uod _, _ => s
+
+/-- "no engine command is running - start one" -/
+def startLife (s : State) (r : Req) : Name → State
+  | .start => lifeStart { s with resident := some ⟨.start, 0⟩ } r
+  | .stop => lifeStop0 { s with resident := some ⟨.stop, 0⟩ } r
+  | .restart => lifeRestart0 { s with restartPending := some r, resident := some ⟨.restart, 0⟩ } r
+  | .uod _ => s
 
 /-- `_execute_internal_command` for the three lifecycle commands. -/
 def executeLife (s : State) (r : Req) : State :=
   match s.resident with
   | some l => if l.name == r.name then tickLife s r l else s
-  | none =>
-    let s := if r.name == .restart then { s with restartPending := some r } else s
-    tickLife { s with resident := some ⟨r.name, 0⟩ } r ⟨r.name, 0⟩
+  | none => startLife s r r.name
 
 def executeReq (s : State) (r : Req) : State × Bool :=
   match r.name with
@@ -417,16 +441,23 @@ def loop : List Req → State → State × Bool
       | (s', true) => (s', true)
       | (s', false) => loop rest s'
 
-/-- `CommandManager.tick`: drain the queue to the front of `cmd_executing`, run the loop, commit. -/
-def tick (s : State) : State × Bool :=
-  let ex := s.queue.reverse ++ s.executing
-  let s := { s with executing := ex, queue := [], done := [], resetTo := none }
-  let (s, raised) := loop ex s
+/-- The state in which `execute_commands` starts its loop: the queue is drained to the front of
+`cmd_executing` (newest first), `cmd_executing_done` is cleared. -/
+def merged (s : State) : State :=
+  { s with executing := s.queue.reverse ++ s.executing, queue := [], done := [], resetTo := none }
+
+/-- The end of the tick: the new manager after Stop/Restart replaced it, else `_commit_commands_done`;
+`Engine.tick`: an exception out of the command phase → `set_error_state` (System State := Paused). -/
+def finish (s : State) (raised : Bool) : State :=
   let s := match s.resetTo with
     | some l => { s with executing := l, done := [], queue := [], resetTo := none, restartPending := none }
     | none => commit s
-  -- `Engine.tick`: an exception out of the command phase → `set_error_state` (System State := Paused)
-  (if raised then { s with sys := .running } else s, raised)
+  if raised then { s with sys := .running } else s
+
+/-- `CommandManager.tick`: drain the queue, run the loop over a snapshot of `cmd_executing`, commit. -/
+def tick (s : State) : State × Bool :=
+  let r := loop (merged s).executing (merged s)
+  (finish r.1 r.2, r.2)
 
 /-! ### requests from outside -/
 
